@@ -64,6 +64,9 @@ def code_for_number_token(name, value, location):
     try:
         # Note: base 0 automatically handles prefixes like 0x.
         result = int(value, 0)
+        # Numbers have to show up in error messages; Python refuses to convert integers with
+        # thousands of digits to text, which for hexadecimal numbers only shows now.
+        str(result)
     except ValueError:
         raise errors.InterfaceError(
             "numeric value for %s must be an integer number but is: %s" % (name, _compat.text_repr(value)), location
